@@ -139,13 +139,13 @@ def oracle_factory(ctx):
 
 
 def campaign_roundtrip(ctx):
-    ctx.search(V.cases(frag=V.SEQUENTIAL, depth=3 if not ctx.thorough else 4).map(list), oracle_factory(ctx), ctx.budget(24000, 400000))
+    ctx.search(V.cases(frag=V.SEQUENTIAL, depth=3 if not ctx.thorough else 4, rootrefs=True).map(list), oracle_factory(ctx), ctx.budget(24000, 400000))
 campaign_roundtrip.shards = (8, 16)
 
 
 def campaign_leaves(ctx):
     """single leaves and shallow wrappers get their own budget so that every primitive parameterisation is hit often"""
-    ctx.search(V.cases(frag=V.SEQUENTIAL, depth=1).map(list), oracle_factory(ctx), ctx.budget(12000, 120000))
+    ctx.search(V.cases(frag=V.SEQUENTIAL, depth=1, rootrefs=True).map(list), oracle_factory(ctx), ctx.budget(12000, 120000))
 campaign_leaves.shards = (4, 8)
 
 
